@@ -42,6 +42,10 @@ type Prop struct {
 	Parallel int
 	// Setup runs once before the cases (e.g. build the CLI binary).
 	Setup func(tier string) error
+	// SamplingSigPrefix marks signatures produced by a sampling complement (e.g. a free-running
+	// race-detector pass): they are confirmed if any signature with that prefix re-occurs in
+	// at least one of the 5 re-executions, instead of the identical signature in all 5.
+	SamplingSigPrefix string
 	// Finish may add extra coverage keys after all cases ran.
 	Finish func(tier string, extra map[string]any)
 }
@@ -92,10 +96,12 @@ type wstate struct {
 	transitions int64
 	evals       int64
 	extra       map[string]int64
+	stateExtra  int64
+	notes       map[string]any
 }
 
 func newW() *wstate {
-	return &wstate{states: map[uint64]struct{}{}, nontrivial: map[uint64]struct{}{}, outcomes: map[string]int64{}, extra: map[string]int64{}}
+	return &wstate{states: map[uint64]struct{}{}, nontrivial: map[uint64]struct{}{}, outcomes: map[string]int64{}, extra: map[string]int64{}, notes: map[string]any{}}
 }
 
 func h64(s string) uint64 {
@@ -116,6 +122,16 @@ func (x *Ctx) State(key string) bool {
 	x.w.states[k] = struct{}{}
 	return true
 }
+
+// AddStates counts states that are known to be distinct without hashing them here
+// (e.g. schedules enumerated by an explorer subprocess).
+func (x *Ctx) AddStates(n int) { x.w.stateExtra += int64(n) }
+
+// Note attaches a per-case detail record to the evidence (coverage.details).
+func (x *Ctx) Note(key string, v any) { x.w.notes[key] = v }
+
+// NotExhaustive records that a cap was hit: the run is reported with exhaustive:false.
+func (x *Ctx) NotExhaustive(why string) { x.w.notes["cap: "+why] = true; x.w.extra["caps_hit"]++ }
 
 // Transition counts implementation calls that move between states.
 func (x *Ctx) Transition(n int) { x.w.transitions += int64(n) }
@@ -317,8 +333,13 @@ func Main(id, tier string, replayPath string) int {
 	nontriv := map[uint64]struct{}{}
 	outcomes := map[string]int64{}
 	extra := map[string]int64{}
-	var transitions, evals int64
+	var transitions, evals, stateExtra int64
+	notes := map[string]any{}
 	for _, w := range ws {
+		stateExtra += w.stateExtra
+		for k, v := range w.notes {
+			notes[k] = v
+		}
 		for k := range w.states {
 			states[k] = struct{}{}
 		}
@@ -390,7 +411,7 @@ func Main(id, tier string, replayPath string) int {
 
 	// evidence
 	cov := map[string]any{
-		"states":                        len(states),
+		"states":                        int64(len(states)) + stateExtra,
 		"transitions":                   transitions,
 		"traces_validated_against_impl": evals,
 		"evaluations":                   evals,
@@ -403,14 +424,20 @@ func Main(id, tier string, replayPath string) int {
 		"outcomes":                      topOutcomes(outcomes, 40),
 		"known_findings_seen":           knownSeen,
 	}
-	if len(states) == 0 {
+	if len(states) == 0 && stateExtra == 0 {
 		cov["states"] = caseCount
+	}
+	if len(notes) > 0 {
+		cov["details"] = notes
 	}
 	if transitions == 0 {
 		cov["transitions"] = evals
 	}
 	for k, v := range extra {
 		cov[k] = v
+	}
+	if extra["caps_hit"] > 0 {
+		cov["exhaustive"] = false
 	}
 	if p.Bound != nil {
 		cov["bound"] = p.Bound(tier)
@@ -506,22 +533,35 @@ func confirm(p *Prop, v Violation, root string) (bool, string) {
 	}
 	dir := filepath.Join(root, "confirm")
 	os.MkdirAll(dir, 0o755)
+	sampling := p.SamplingSigPrefix != "" && strings.HasPrefix(v.Sig, p.SamplingSigPrefix)
+	hits := 0
 	for i := 0; i < 5; i++ {
 		x := &Ctx{Case: c, Dir: dir, w: newW(), Quiet: true}
 		runCase(p, c, x)
 		found := false
 		for _, f := range x.fails {
-			if f.Sig == v.Sig {
+			if f.Sig == v.Sig || (sampling && strings.HasPrefix(f.Sig, p.SamplingSigPrefix)) {
 				found = true
 			}
 		}
-		if !found {
-			var got []string
-			for _, f := range x.fails {
-				got = append(got, f.Sig)
+		if found {
+			hits++
+			if sampling {
+				return true, ""
 			}
-			return false, fmt.Sprintf("re-execution %d gave signatures %v", i+1, got)
+			continue
 		}
+		if sampling {
+			continue
+		}
+		var got []string
+		for _, f := range x.fails {
+			got = append(got, f.Sig)
+		}
+		return false, fmt.Sprintf("re-execution %d gave signatures %v", i+1, got)
+	}
+	if sampling && hits == 0 {
+		return false, "sampling complement did not reproduce the report in 5 re-executions"
 	}
 	return true, ""
 }
